@@ -399,7 +399,7 @@ def attemptToFinalize (c : Cfg) (o : Ord) (s : St) : Except Err Fin := do
 /-! ### the closed form: what the tallies select whatever the iteration orders (theorems in Props) -/
 
 /-- blocks named by a vote of the stage -/
-def votedBlocks (votes : List (Nat × Vote)) : List Nat := (votes.map (·.2.blk)).eraseDups
+def votedBlocks (votes : List (Nat × Vote)) : List Nat := votes.map (·.2.blk)
 
 /-- directly voted blocks with more than `th` total votes -/
 def dirSel (c : Cfg) (votes : List (Nat × Vote)) (e th : Nat) : List Nat :=
